@@ -11,6 +11,7 @@ pub mod sortlex;
 pub mod metainherit;
 pub mod tokvals;
 pub mod tablekern;
+pub mod glrspan;
 
 /// `std::env::var_os` stub: the dev-profile `log!` macro of the runtime consults
 /// `RUSTEMO_TRACE` on every call; tracing is not a subject of any property.
